@@ -1,4 +1,64 @@
 import Driver.Common
+import AnyioModel.Stream.Memory
 
-/-- placeholder driver: replies `unimplemented` to every request -/
-def main : IO Unit := Driver.serve () (fun s _ => (s, "unimplemented"))
+namespace Driver.Mem
+open AnyioModel.Stream.Memory
+
+def outStr : Out → String
+  | .susp => "susp"
+  | .ret => "ret"
+  | .item x => s!"item {x}"
+  | .handle h => s!"handle {h}"
+  | .wouldBlock => "wouldblock"
+  | .closed => "closed"
+  | .broken => "broken"
+  | .eos => "eos"
+  | .cancelled => "cancelled"
+  | .env => "env"
+
+/-- `-` = empty list, else comma-separated task numbers -/
+def parseList (w : String) : Option (List Nat) :=
+  if w = "-" then some [] else (w.splitOn ",").mapM (·.toNat?)
+
+def parseEv : List String → Option Ev
+  | ["send", t, h, x, pre] => do
+    some (.send (← t.toNat?) (← h.toNat?) (← x.toNat?) (← Driver.parseBool pre))
+  | ["send_nowait", t, h, x, p] => do
+    some (.sendNowait (← t.toNat?) (← h.toNat?) (← x.toNat?) (← parseList p))
+  | ["receive", t, h, pre] => do
+    some (.receive (← t.toNat?) (← h.toNat?) (← Driver.parseBool pre))
+  | ["receive_nowait", t, h] => do some (.receiveNowait (← t.toNat?) (← h.toNat?))
+  | ["close_s", t, h] => do some (.closeS (← t.toNat?) (← h.toNat?))
+  | ["close_r", t, h] => do some (.closeR (← t.toNat?) (← h.toNat?))
+  | ["clone_s", t, h] => do some (.cloneS (← t.toNat?) (← h.toNat?))
+  | ["clone_r", t, h] => do some (.cloneR (← t.toNat?) (← h.toNat?))
+  | ["step", t, p] => do some (.step (← t.toNat?) (← parseList p))
+  | ["fc", t] => do some (.fc (← t.toNat?))
+  | ["mc", t] => do some (.mc (← t.toNat?))
+  | _ => none
+
+def maxStr : Option Nat → String
+  | none => "inf"
+  | some m => toString m
+
+def handle (s : State) : List String → State × String
+  | ["new", m] =>
+    if m = "inf" then (init none, "ok")
+    else match m.toNat? with
+      | some k => (init (some k), "ok")
+      | none => (s, "bad-op")
+  | ["obs"] =>
+    (s, s!"used={s.buffer.length} max={maxStr s.maxSize} os={s.openSend} or={s.openRecv} ws={s.waitingSenders.length} wr={s.waitingReceivers.length}")
+  | ["ghost"] =>
+    (s, s!"lost={s.lost.length} interrupted={s.interrupted.length} delivered={s.delivered.length} accepted={s.accepted.length} rejected={s.rejected.length}")
+  | ws =>
+    match parseEv ws with
+    | none => (s, "bad-op")
+    | some e =>
+      match step s e with
+      | none => (s, "DISABLED")
+      | some (s', o) => (s', outStr o)
+
+end Driver.Mem
+
+def main : IO Unit := Driver.serve (AnyioModel.Stream.Memory.init none) Driver.Mem.handle
